@@ -419,7 +419,7 @@ def rule_archive_writes_surface(ctx, p, cfg, rid="R13"):
 def rule_move_file(ctx, p, cfg, rid="R5"):
     with ctx.rule(rid, "move_file contract", cfg) as r:
         ro = roles(p)
-        m = ro["move_file"]
+        m = p.fn_threaded(ro["move_file"].path)     # `let failed = match rename(..) { Ok => false, Err(e) => e.kind() != NotFound }; if !failed { return Ok(()) }` is the same match
         rn = m.call1("std::fs::rename", "fs::rename")
         r.require(deep_strip(rn.arg(0)) == ("param", 1) and deep_strip(rn.arg(1)) == ("param", 2), "rename-src-dst", fn=m, site=rn.at, detail="rename(%s, %s)" % (show(rn.arg(0)), show(rn.arg(1))))
         for c in m.calls():
@@ -461,11 +461,11 @@ def rule_move_file(ctx, p, cfg, rid="R5"):
             c = cp[0]
             r.require(deep_strip(c.arg(0)) == ("param", 1) and deep_strip(c.arg(1)) == ("param", 2), "copy-src-dst", fn=m, site=c.at, detail="copy(src, dst)")
             # remove only on success: remove_file(src) inside the closure handed to and_then on the copy's result, or on its Ok edge
-            rm = [x for x in p.all_calls("std::fs::remove_file") if x.fn is m or x.fn.d.get("closure_of") == m.path]
+            rm = list(m.calls("std::fs::remove_file")) + [x for x in p.all_calls("std::fs::remove_file") if x.fn.d.get("closure_of") == m.path]
             r.require(len(rm) == 1, "one-remove", fn=m, detail="remove_file sites in move_file: %d" % len(rm))
             if rm:
                 x = rm[0]
-                if x.fn is m:
+                if x.fn.path == m.path:
                     conds = m.conditions(x.block)
                     ok = any(strip(si.discr)[0] == "discr" and any(y[0] == "call" and y[1] == "std::fs::copy" for y in walk(si.discr)) and {si.label(v) for v, _ in al} <= {"Ok", "Continue"} for sb, si, al in conds)
                     src_ok = deep_strip(x.arg(0)) == ("param", 1)
